@@ -870,6 +870,8 @@ def run(ctx):
     # source tie: c16_src_* evaluated on generated values (search mode: the values on which a broken obligation is false go to
     # the oracle first), then translator validation (regenerated Lean reader vs the real deserialize on the same cells)
     SRC.theorem_check(ctx, check_value, P)
+    if ctx.search and ctx.failures:
+        return        # a broken c16_src_* obligation already has its concrete failing input
     SRC.validate(ctx)
     late = ['TransactionDescr', 'Transaction', 'MsgEnvelope', 'InMsg', 'OutMsg', 'AccountBlock', 'InMsgDescr', 'OutMsgDescr', 'ShardAccountBlocks',
             'McBlockExtra', 'McStateExtra', 'BlockExtra', 'Block', 'ShardStateUnsplit', 'ShardState']
